@@ -236,6 +236,21 @@ func suiteClient(args []string) {
 			forced = append(forced, forcedCase{kmip.OPERATION_ACTIVATE, kmip.ActivateRequest{UniqueIdentifier: "x"}, append([]byte(nil), full[:cut]...)})
 		}
 	}
+	// a well-formed Success reply with ONE tag replaced by the internal wildcard value FF FF FF (it matches any tag inside the
+	// library's descriptors, never on the wire): every such reply is an error
+	{
+		resp := kmip.Response{Header: kmip.ResponseHeader{Version: kmip.ProtocolVersion{Major: 1, Minor: 4}, TimeStamp: time.Unix(1000, 0), BatchCount: 1},
+			BatchItems: []kmip.ResponseBatchItem{{Operation: kmip.OPERATION_ACTIVATE, ResultStatus: kmip.RESULT_STATUS_SUCCESS, ResponsePayload: kmip.ActivateResponse{UniqueIdentifier: "k1"}}}}
+		if _, full := implEncode(&resp); full != nil {
+			var all []*item
+			walkItems(full, 0, 0, &all)
+			for _, it := range all {
+				m := append([]byte(nil), full...)
+				m[it.off], m[it.off+1], m[it.off+2] = 0xff, 0xff, 0xff
+				forced = append(forced, forcedCase{kmip.OPERATION_ACTIVATE, kmip.ActivateRequest{UniqueIdentifier: "x"}, m})
+			}
+		}
+	}
 	// replies whose payload holds several short byte strings side by side (one-block ciphertext, IV, authentication tag): each
 	// field comes back as it was sent
 	for k := 0; k < 6; k++ {
